@@ -642,6 +642,7 @@ class C17(core.Property):
     problems, corr = [], []
     impl, mcohorts = [], []
     saw_empty = saw_update = near_tie = False
+    tie_sets = []
     scale = 1.0 + float(np.max(np.abs(case['clusters'])))
     evals = case.get('evals') or [[] for _ in range(len(case['rounds']) + 1)]
 
@@ -698,7 +699,8 @@ class C17(core.Property):
         state, diag = alg.apply(state, clients)
       after = [np.asarray(p['w'], np.float64) for p in state.cluster_params]
       assign = {cid: int(v['cluster_id']) for cid, v in diag.items()}
-      # (a) assignment = a cluster of minimal average loss (first one among exact ties)
+      # (a) assignment = A cluster of minimal average loss (which one wins a tie is not fixed by the property)
+      round_losses = []
       for c in cohort:
         if len(c['y']):
           x, y = np.asarray(c['x'], np.float64), np.asarray(c['y'], np.float64)
@@ -707,6 +709,7 @@ class C17(core.Property):
           data = [0.0] * K
         # the average loss the maximisation step ranks clusters by includes the regulariser of each cluster's params
         losses = [dl + reg_of(b) for dl, b in zip(data, before)]
+        round_losses.append(losses)
         if int(np.argmin(losses)) != int(np.argmin(data)):
           reg_flipped = True
         a = assign.get(c['id'])
@@ -719,8 +722,6 @@ class C17(core.Property):
         if losses[a] > min(losses) + 1e-4 * (1 + min(losses)):
           problems.append(f'round {ri}: client {c["id"]} assigned to cluster {a} with average loss {losses[a]}, '
                           f'minimum is {min(losses)} (losses {losses})')
-        elif len(set(losses)) == 1 and a != 0:
-          problems.append(f'round {ri}: all cluster losses equal for client {c["id"]} but it was assigned to {a}, not the first')
       # (b) cluster-local update / (c) untouched empty cluster
       for k in range(K):
         mine = [(j, c) for j, c in enumerate(cohort) if assign.get(c['id']) == k]
@@ -745,6 +746,8 @@ class C17(core.Property):
           if not close(after[k], expect, scale):
             problems.append(f'round {ri}: cluster {k} params {after[k].tolist()} != server step on the weighted mean of '
                             f'its own clients {[c["id"] for _, c in mine]}: {expect.tolist()}')
+      # clusters each client may legitimately be assigned to (minimal loss up to the float tolerance)
+      tie_sets.append([[k for k in range(K) if ls[k] <= min(ls) + 1e-4 * (1 + min(ls))] for ls in round_losses])
       impl.append({'clusters': [a.tolist() for a in after], 'assign': {str(k): v for k, v in assign.items()}})
       if problems:
         break
@@ -754,16 +757,27 @@ class C17(core.Property):
     if not problems:
       evaluation(len(case['rounds']), state)
     tags += [f'empty_cluster={saw_empty}', f'near_tie={near_tie}', f'regulariser_changes_assignment={reg_flipped}']
-    if not problems and not near_tie:
-      ans = ctx.drv.ask1('c12.hyp', [False, lam], opt_code(case['copt']), opt_code(case['sopt']),
-                         [[float(v) for v in c] for c in case['clusters']], mcohorts)
+    if not problems:
+      margs = ([False, lam], opt_code(case['copt']), opt_code(case['sopt']),
+               [[float(v) for v in c] for c in case['clusters']], mcohorts)
+      ans = ctx.drv.ask1('c12.hyp', *margs)
+      iassigns = [[impl[ri]['assign'][str(c['id'])] for c in case['rounds'][ri]] for ri in range(len(impl))]
+      # the model assigns the FIRST cluster of minimal loss; the implementation may pick any minimal one.  Assignments
+      # are compared up to ties; from the first round in which the two differ the states are no longer comparable, so
+      # the model is re-run with the implementation's (oracle-checked, minimal) assignment given
+      states = [r[0] for r in ans]
       for ri, r in enumerate(ans):
-        massign = r[1]
-        iassign = [impl[ri]['assign'][str(c['id'])] for c in case['rounds'][ri]]
-        if massign != iassign:
-          corr.append(f'round {ri}: model assignment {massign} vs impl {iassign}')
+        if r[1] != iassigns[ri]:
+          bad = [c['id'] for c, m, i, ts in zip(case['rounds'][ri], r[1], iassigns[ri], tie_sets[ri])
+                 if m != i and not (m in ts and i in ts)]
+          if bad:
+            corr.append(f'round {ri}: model assignment {r[1]} vs impl {iassigns[ri]} (clients {bad} are not ties)')
+          else:
+            tags.append('tie_broken_differently=True')
+            states = ctx.drv.ask1('c12.hyp_with', *margs, iassigns)
           break
-        for k, cl in enumerate(r[0]):
+      for ri, cls in enumerate(states if not corr else []):
+        for k, cl in enumerate(cls):
           if not close(impl[ri]['clusters'][k], [float(v) for v in cl[0]], scale):
             corr.append(f'round {ri}: model cluster {k} params {[float(v) for v in cl[0]]} vs impl {impl[ri]["clusters"][k]}')
             break
